@@ -394,3 +394,11 @@ func Safely(f func()) (pan string) {
 	f()
 	return ""
 }
+
+// FuzzReport is used by native fuzz targets: it stores the failing case as a replay file
+// in the run's output directory so that the driver reports it like any other violation.
+func FuzzReport[C any](s *Spec[C], c *C, msgs []string) string {
+	path := filepath.Join(outDir(), fmt.Sprintf("fail-%s-%s-fuzz-%s.json", s.ID, s.Facet, hashOf(encodeCase(c))))
+	writeJSON(path, ReplayFile{Property: s.ID, Facet: s.Facet, Violations: msgs, Case: pretty(s, c), CaseGob: encodeCase(c)})
+	return path
+}
